@@ -25,7 +25,7 @@ RULE = (
     "five properties; distinct by canonical JSON."
 )
 ASSUMPTIONS = ["C01's generator and the gap guard", "TimingData / NoteData as readers (C07, C14)"]
-MONITORS = ["result_content", "timing_equal", "notes_equal", "unmodified", "no_sharing", "second_call_same", "reload", "negative_refused"]
+MONITORS = ["result_content", "timing_equal", "notes_equal", "unmodified", "no_sharing", "second_call_same", "reload", "reload_autodetect", "negative_refused"]
 REQUIRED = ["template_none", "template_blank", "template_sparse", "template_with_charts", "template_empty",
             "chart_template_empty", "chart_template_sparse", "animations_alias", "ssc_only_key_in_source", "version_key_in_source",
             "negative_bpm_or_stop", "source_with_charts", "delays_or_warps"]
@@ -299,6 +299,17 @@ def check(ctx, case):
             ctx.expect(c04.state(back) == c04.state(res2), "reload:differs-beyond-notes-moved-last", text=text[:300])
     except Exception as e:
         ctx.violation(f"reload:raised:{type(e).__name__}", {"exc": repr(e), "text": text[:400]})
+    # template keys keep their place (VERSION first in the blank and sparse templates), so the text is detected as SSC
+    if base_items and base_items[0][0] == "VERSION":
+        import simfile
+
+        ctx.mon("reload_autodetect")
+        try:
+            auto = simfile.loads(text)
+            ctx.expect(type(auto) is SSCSimfile and ssc_state(auto) == ssc_state(SSCSimfile(string=text)),
+                       "reload:autodetecting-loader-does-not-give-the-ssc-simfile", type=type(auto).__name__, first_keys=list(res2.keys())[:3])
+        except Exception as e:
+            ctx.violation(f"reload:autodetecting-loader-raised:{type(e).__name__}", {"exc": repr(e), "first_keys": list(res2.keys())[:3]})
 
 
 def _probe_freezes(ctx):
